@@ -2450,6 +2450,8 @@ class Engine:
                 st.assume(f(v) >= 0)
                 return f(v)
             raise Undecided('len of %r' % (v,))
+        if name in ('min', 'max') and len(args) == 1 and isinstance(args[0], SMap):
+            args = [('mapkeys', args[0])]  # min(d) / max(d) of a dict ranges over its keys
         if name in ('min', 'max') and len(args) == 1 and isinstance(args[0], tuple) and len(args[0]) == 2 and isinstance(args[0][0], str) and args[0][0] in ('mapvalues', 'mapkeys') and isinstance(args[0][1], SMap):
             # min / max over the values (keys) of a finite map: a member that bounds all members; `default` for an empty map
             m = args[0][1]
